@@ -32,6 +32,7 @@ def spec_of(conf, seed):
     return fmt(list(conf) + [seed])
 
 def run(ctx):
+    import os; os.environ['MALLOC_PERTURB_'] = '165'     # every block the harness processes get from or return to the allocator is filled: memory that a routine never wrote does not look like zeros by luck
     thorough = ctx.tier == 'thorough'
     rng = ctx.rng
     ctx.rule = ('(i) full size: both default sets and custom sets with n in {1,3,8,1025,1100} (n > N included), k in {1,2}, several (l,Bgbit); inputs: trivial samples at the centre and both '
@@ -44,7 +45,8 @@ def run(ctx):
     ctx.prove()
     exe = vlib.build_harness('boot_drv.cpp', vlib.build_lib('optim'), 'spqlios-fma', 'optim')
     confs = [((128, 0, 0, 0, 0, 0, 0, 0, 0), 40, 15), ((80, 0, 0, 0, 0, 0, 0, 0, 0), 30, 15),
-             ((0, 1025, 1, 3, 7, 8, 2, A_BK, A_KS), 10, 3), ((0, 3, 1, 2, 10, 8, 2, A_BK, A_KS), 30, 15), ((0, 8, 2, 2, 10, 4, 4, A_BK, A_KS), 20, 7)]
+             ((0, 1025, 1, 3, 7, 8, 2, A_BK, A_KS), 10, 3), ((0, 3, 1, 2, 10, 8, 2, A_BK, A_KS), 30, 15), ((0, 8, 2, 2, 10, 4, 4, A_BK, A_KS), 20, 7),
+             ((0, 4, 1, 22, 1, 8, 2, A_BK, A_KS), 12, 15), ((0, 3, 1, 1, 16, 8, 2, 4, A_KS), 12, 15)]      # extreme gadget layouts: Bgbit = 1 (digits in {-1,0}), l = 1
     if thorough:
         confs = [((128, 0, 0, 0, 0, 0, 0, 0, 0), 2048, 15), ((80, 0, 0, 0, 0, 0, 0, 0, 0), 2048, 15),
                  ((0, 1025, 1, 3, 7, 8, 2, A_BK, A_KS), 60, 15), ((0, 1100, 1, 2, 10, 8, 2, A_BK, A_KS), 60, 15), ((0, 1, 1, 3, 7, 8, 2, A_BK, A_KS), 200, 15),
